@@ -66,12 +66,10 @@ func Pipe(name string) (*Conn, *Conn) {
 
 type timeoutError struct{}
 
-func (timeoutError) Error() string   { return "i/o timeout" }
-func (timeoutError) Timeout() bool   { return true }
-func (timeoutError) Temporary() bool { return true }
-func (timeoutError) Is(err error) bool {
-	return err == os.ErrDeadlineExceeded || err == context.DeadlineExceeded
-}
+func (timeoutError) Error() string     { return "i/o timeout" }
+func (timeoutError) Timeout() bool     { return true }
+func (timeoutError) Temporary() bool   { return true }
+func (timeoutError) Is(err error) bool { return err == os.ErrDeadlineExceeded }
 
 func opErr(op string, err error) error {
 	return &net.OpError{Op: op, Net: "vnet", Addr: addr("vnet"), Err: err}
